@@ -25,7 +25,22 @@ Kinds(toks) == [lit0 |-> Cardinality({j \in 1..Len(toks) : IsLit(toks[j]) /\ tok
                 c4 |-> Cardinality({j \in 1..Len(toks) : toks[j].k = "c4"})]
 NoKinds == [lit0 |-> 0, lit1 |-> 0, lit2 |-> 0, c1 |-> 0, c2 |-> 0, c4 |-> 0]
 
+(* Large inputs: judged element by element with Snappy.Against (same verdicts as the full   *)
+(* decode, linear time): the block must parse, declare |x|, every copy must refer to output  *)
+(* already produced with a non-zero offset, and the elements must reproduce x.               *)
+VerdictBig(r) ==
+    LET p == Parse(r.c) IN
+    IF ~p.ok THEN [id |-> r.id, v |-> "invalid-block", why |-> p.why, kinds |-> NoKinds]
+    ELSE IF Check(p.toks) # "ok" THEN [id |-> r.id, v |-> "invalid-block", why |-> Check(p.toks), kinds |-> Kinds(p.toks)]
+    ELSE IF OutLen(p.toks) > p.n THEN [id |-> r.id, v |-> "invalid-block", why |-> "output-longer-than-declared", kinds |-> Kinds(p.toks)]
+    ELSE IF OutLen(p.toks) < p.n THEN [id |-> r.id, v |-> "invalid-block", why |-> "output-shorter-than-declared", kinds |-> Kinds(p.toks)]
+    ELSE LET a == Against(p.toks, r.x) IN
+         IF a # "ok" THEN [id |-> r.id, v |-> "decodes-to-different-bytes", why |-> a, kinds |-> Kinds(p.toks)]
+         ELSE [id |-> r.id, v |-> "ok", why |-> "", kinds |-> Kinds(p.toks)]
+
+BigLimit == 8192
 Verdict(r) ==
+    IF Len(r.x) > BigLimit THEN VerdictBig(r) ELSE
     LET p == Parse(r.c)
         d == Decode(r.c)
     IN IF ~d.ok THEN [id |-> r.id, v |-> "invalid-block", why |-> d.why, kinds |-> NoKinds]
